@@ -76,7 +76,7 @@ impl Property for C11 {
     }
 
     fn exhaustive_spaces(_tier: Tier) -> Vec<String> {
-        vec!["every bit position after the magic, for message lengths 0, 5, 16, 17 in both inclusion modes".into()]
+        vec!["every bit position of the serialised ciphertext (magic, embedded key, body, MAC), for message lengths 0, 5, 16, 17 in both inclusion modes".into()]
     }
 
     fn exhaustive(_tier: Tier, shard: usize, nshards: usize, f: &mut dyn FnMut(Case) -> bool) {
@@ -85,7 +85,7 @@ impl Property for C11 {
             for len in [0u32, 5, 16, 17] {
                 let ct_len = 16 * (len / 16 + 1);
                 let total = 4 + if exclude { 0 } else { 33 } + ct_len + 32;
-                for bit in 0..(total - 4) * 8 {
+                for bit in 0..total * 8 {
                     idx += 1;
                     if idx % nshards != shard {
                         continue;
@@ -157,10 +157,12 @@ impl Property for C11 {
                 let (spk, rpk) = (lib_pub(sender)?, lib_pub(recipient)?);
                 let ct = lib_call("ECIES::encrypt", || ECIES::encrypt(&m, &ssk, &rpk, *exclude))?.map_err(|e| failure("encrypt", e.to_string(), "Ok"))?;
                 let mut bytes = ct.to_bytes();
-                let nbits = (bytes.len() - 4) * 8;
-                let b = 32 + (*bit as usize) % nbits;
+                // every bit position of the serialised ciphertext, the four magic bytes included (positions wrap around)
+                let b = (32 + *bit as usize) % (bytes.len() * 8);
                 bytes[b / 8] ^= 1 << (b % 8);
-                let region = if !*exclude && b / 8 < 37 {
+                let region = if b / 8 < 4 {
+                    "magic"
+                } else if !*exclude && b / 8 < 37 {
                     "embedded-public-key"
                 } else if b / 8 >= bytes.len() - 32 {
                     "mac"
